@@ -4,8 +4,8 @@
 //!
 //! `MAX_CHUNK_SIZE` of the `self_encryption` crate is a compile-time constant (option_env!). The
 //! `run` script builds this sim twice: the default build (1 MiB chunks) and a small-chunk build
-//! (MAX_CHUNK_SIZE=4096, sim name `client-smallchunk`) in which a few hundred KiB of input already
-//! need several data-map levels.
+//! (MAX_CHUNK_SIZE=1024, sim name `client-smallchunk`) in which a few hundred KiB of input already
+//! need three data-map levels.
 
 mod world;
 
@@ -47,12 +47,15 @@ pub struct ClientSim;
 fn interesting_len(rng: &mut Rng, tier: Tier) -> usize {
     let max = *self_encryption::MAX_CHUNK_SIZE;
     if SMALL_CHUNK_BUILD {
-        // multi-level data maps need > ~40 chunks of 4 KiB
-        let n = match rng.below(6) {
+        // with 1 KiB chunks a data map needs a 2nd level from ~10 chunks, a 3rd from ~100-150 chunks
+        // (~150 KiB) and a 4th from a few MiB
+        let n = match rng.below(8) {
             0 => rng.urange(3, 200),
             1 => 3 * max + rng.urange(0, 2) - 1,
             2 => rng.urange(1, 80) * max + rng.urange(0, 2) - 1,
-            _ => rng.urange(40, if tier == Tier::Quick { 120 } else { 400 }) * max + rng.urange(0, 5000),
+            3 | 4 => rng.urange(12, 100) * max + rng.urange(0, 900),
+            7 if tier == Tier::Thorough => rng.urange(2500, 3500) * max,
+            _ => rng.urange(150, 420) * max + rng.urange(0, 900),
         };
         n.max(3)
     } else {
@@ -75,7 +78,7 @@ impl Sim for ClientSim {
     fn properties() -> Vec<PropertySpec> {
         let assumptions = vec![
             "the simulator plays the holders and libp2p's kad query engine (it emits the kad::Event values the engine emits); the real Client, Network::get_record_from_network and SwarmDriver handlers run",
-            "MAX_CHUNK_SIZE is compile-time: default build (1 MiB) and small-chunk build (4096 B) are both run; CHUNK_DOWNLOAD_BATCH_SIZE is fixed to 3 for the process",
+            "MAX_CHUNK_SIZE is compile-time: default build (1 MiB) and small-chunk build (1024 B) are both run; CHUNK_DOWNLOAD_BATCH_SIZE is fixed to 3 for the process",
             "client upload / payment paths are not exercised (C14/C15 are read-side properties); chunks are produced by the real autonomi::self_encryption::encrypt",
         ];
         vec![
@@ -111,8 +114,8 @@ impl Sim for ClientSim {
             }
             ("C14", _) => Task::DataWithFault { len: interesting_len(rng, ctx.tier), victim: rng.below(1 << 16) as u32, how: rng.below(2) as u8 },
             _ => match rng.below(if SMALL_CHUNK_BUILD { 2 } else { 4 }) {
-                0 => Task::DataWithFault { len: interesting_len(rng, ctx.tier), victim: rng.below(1 << 16) as u32, how: 2 + rng.below(4) as u8 },
-                1 => Task::ChunkGet { len: rng.urange(3, 5000), how: 2 + rng.below(4) as u8 },
+                0 => Task::DataWithFault { len: interesting_len(rng, ctx.tier), victim: rng.below(1 << 16) as u32, how: 2 + rng.below(5) as u8 },
+                1 => Task::ChunkGet { len: rng.urange(3, 5000), how: 2 + rng.below(5) as u8 },
                 _ => {
                     let n = rng.urange(0, 8);
                     let replies = (0..n)
